@@ -82,7 +82,18 @@ fn main() {
         common::TRACE.store(true, std::sync::atomic::Ordering::Relaxed);
     }
 
-    let (prop, rep, exhaustive, rule): (&str, Report, String, String) = match sub.as_str() {
+    // A panic that escapes from the parts of a workload that run on the main thread without a catcher ends the
+    // workload. If it was raised inside konst (an operation that is total for every input panicked), that is an
+    // observation about the code under test: it is reported as a failure of the sub-command instead of taking
+    // the process down (which the driver could only call INCONCLUSIVE). Any other panic is a harness bug.
+    let names: (&'static str, &'static str) = match sub.as_str() {
+        "c01" => ("C01", "c01"), "c02" => ("C02", "c02"), "c03" => ("C03", "c03"), "c04" => ("C04", "c04"), "c05" => ("C05", "c05"),
+        "c06" => ("C06", "c06"), "c07" => ("C07", "c07"), "c08" => ("C08", "c08"), "c09" => ("C09", "c09"), "c11" => ("C11", "c11"),
+        "c12" => ("C12", "c12"), "c13" => ("C13", "c13"), "c14" => ("C14", "c14"), "c15" => ("C15", "c15"), "c16" => ("C16", "c16"),
+        "c20" => ("C20", "c20"),
+        _ => ("?", "?"),
+    };
+    let run_all = || -> (&'static str, Report, String, String) { match sub.as_str() {
         "c01" => c01::run(&cfg),
         "c02" => c02::run(&cfg),
         "c03" => c03::run(&cfg),
@@ -102,6 +113,21 @@ fn main() {
         _ => {
             eprintln!("unknown sub-command {}", sub);
             std::process::exit(3)
+        }
+    } };
+    let (prop, rep, exhaustive, rule) = match std::panic::catch_unwind(std::panic::AssertUnwindSafe(run_all)) {
+        Ok(x) => x,
+        Err(payload) => {
+            let last = common::last_panic();
+            if last.contains("/konst/src/") || last.contains("/konst_kernel/src/") || last.contains("/konst_proc_macros/src/") {
+                let mut r = Report::new();
+                r.fail("unexpected-panic-inside-konst", "konst", format!("sub-command {} (main-thread part of the workload; the rest of the workload did not run)", sub), format!("panicked: {}", last), "no panic: the operation is defined for every input".into());
+                // enough observations for the driver not to call the run empty
+                r.evals += 1;
+                (names.0, r, "workload aborted by a panic inside konst".to_string(), "workload aborted by a panic inside konst".to_string())
+            } else {
+                std::panic::resume_unwind(payload)
+            }
         }
     };
     let mut rep = rep;
